@@ -6,6 +6,7 @@ require (
 	github.com/invopop/gobl v0.0.0
 	github.com/invopop/jsonschema v0.12.0
 	github.com/invopop/yaml v0.3.1
+	golang.org/x/text v0.23.0
 	pgregory.net/rapid v1.3.0
 )
 
